@@ -97,3 +97,9 @@ func init() {
 		Assume: []string{"one gtree call at a time per worker, so every goroutine with a gtree frame (or created by one) belongs to that call", "leak = the same set of new gtree goroutines, all in states only another goroutine can end, in two observations >= 200 ms apart after the call returned; hang = the same during the call (>= 300 ms); the 60 s watchdog firing while goroutines are active is inconclusive, never a violation", "'bounded time' is decided as deadlock-freedom plus return before the watchdog on the executions run; no latency bound is claimed", "a clean race-detector run covers only the accesses the workload executed"},
 		Rule: "fault enumeration over massive-mode calls: documents with B in {0,1,2,3,5,12,30} failing blocks (first / last / seeded positions) failing in the generator stage (malformed line), the grower stage (invalid name with validation on) or the final stage (pre-existing roots for mkdir, missing roots for verify, failing callback, failing writer); reader failing after 0..100% of the input; cancellation after EVERY input offset (reader cancels the context) and at EVERY hook event of an unperturbed run (trigger on the K-th verifPoint event); context cancelled before the call; deadline contexts of 0-400 us; the four From-Root operations plain / pre-cancelled / cancelled at a hook event / failing; each under a seeded GOMAXPROCS in {1,2,4,16} and perturbation profile {none, light, heavy delays at the hooks}; one evaluation = one real call watched by the deadlock monitor, the leak monitor and (cancellation kinds) the oracle 'nil => output complete, error => errors.Is(err, ctx.Err())'; the same workload runs on the -race build and every DATA RACE report is a violation; distinct key = hash(kind, operation, fault parameters, hook-event order); non-trivial = a fault or cancellation was requested (triggers_fired / leaks / points_reached are measured)"}
 }
+
+func init() {
+	props["C16"] = propCfg{Level: "exploration", CLI: true,
+		Assume: []string{"the expected stdout / effect / success come from the library called with the options the flags stand for (the library is tied to the model by C01-C15)", "--watch and web are excluded (endless ticker loop; launches a browser)", "a closed stdout cannot fail in a Go program (the runtime re-opens closed standard descriptors on /dev/null), so it is a success state; /dev/full and strace-injected ENOSPC are the failing stdout states", "strace counts per thread, so a run is a fault case iff its log contains (INJECTED)"},
+		Rule: "cases: 150 (quick) / 3000 (thorough) seeded documents (well-formed in random spellings, malformed by one injection, hostile names, blank) x the flag matrix {output: --format none/json/yaml/toml, --massive, stdin/--file; mkdir: +-dry-run, -e lists, +-target-dir, pre-existing root; verify: +-strict, +-target-dir, with and without an injected difference}, stdout on /dev/full and closed, the template|output sample vs README and model, 15 usage-error command lines, and strace fault injection (ENOSPC on the N-th write to stdout for every N, EACCES on the N-th mkdirat for every N, EACCES on each file creation); one evaluation = one real process run judged on exit status, stderr, stdout bytes and jail snapshot against the library's result; distinct key = hash(document, command line, fault index); non-trivial = non-empty document or a usage / fault case"}
+}
